@@ -29,7 +29,7 @@ META = dict(
          'program feasible (reachability twin sat) and at least one robust row decided; distinct by spec name',
     bounds='models: <=3 here-and-now arrays (<=3 entries), <=2 random arrays (<=4 components), LDRs with arbitrary '
            'dependency masks (<=2 entries), <=4 robust rows, min/max/minmax/maxmin with affine, bi-affine, '
-           'maxof/minof objectives; sets: boxes (zero/non-zero/one-sided), linear (in)equalities, 1/2/inf-norm '
+           'maxof/minof objectives, piecewise (maxof) robust rows with <=3 pieces incl. one piecewise constraint object used with two sets; sets: boxes (zero/non-zero/one-sided), linear (in)equalities, 1/2/inf-norm '
            '(shifted/scaled), quad, sumsqr, lifted budget sets, KL-divergence balls / entropy level sets on the simplex and sum-exp / sum-log sets (dimension 2-3), intersections, per-constraint forall sets; '
            'coefficients on the dyadic grid (+ multiples of 1/8 in thorough)',
     outside='exactness for exponential-cone sets (only soundness is claimed, through the cone-pairing relaxation; a '
